@@ -1,6 +1,8 @@
 //! lfsverif: conformance harness binding the TLA+ specifications in /verif/spec to insim.rs.
 mod abs;
+mod builder;
 mod conn;
+mod files;
 mod frames;
 mod net;
 mod values;
@@ -13,6 +15,9 @@ use std::{
 };
 
 use serde_json::{json, Value};
+
+#[global_allocator]
+static GLOBAL: files::Counting = files::Counting;
 
 fn arg_map(args: &[String]) -> HashMap<String, String> {
     let mut m = HashMap::new();
@@ -252,6 +257,8 @@ fn main() {
         "wire-fuzz" => wire::cmd_wire_fuzz(&a),
         "wire-cross" => wire::cmd_wire_cross(&a),
         "wire-dec" => wire::cmd_wire_dec(&a),
+        "builder-replay" => builder::cmd_builder_replay(&a),
+        "files-replay" => files::cmd_files_replay(&a),
         "values-replay" => values::cmd_values_replay(&a),
         "values-trace" => values::cmd_values_trace(&a),
         "values-rerun" => values::cmd_values_rerun(&a),
